@@ -4,7 +4,8 @@ proof:          lean/MPilot/Props/C20.lean
 correspondence: every parameter class/configuration x every raw value kind the parser or API can deliver, with and without
                 a working directory: clean(v) and clean(clean(v)) of the real classes vs the model's `clean`
 oracles:        documented result type; only parameter errors (MPilotError) are raised; determinism; idempotence
-                (paths: under an absolute working directory); the raw argument and the program are left untouched
+                (paths: under an absolute working directory); the raw argument and the program are left untouched; lists of 70-5000 items
+                mixing number kinds: every cleaned item is the item cleaned alone (value and type), also through a command file
 """
 import copy
 import os
@@ -306,6 +307,100 @@ def from_file_values(ctx):
             ctx.fail("the command is handed %r for %s; item by item, cleaned by the declared item type, the value is %r" % (got, key, want), {"source": src, "parameter": key})
 
 
+def long_lists(ctx):
+    """lists of any length are cleaned item by item (category codes, curve points and weights of generated models run to thousands of entries): a ladder
+    of lengths, each list mixing the kinds a file or the programming interface delivers - integers, decimals, whole-valued decimals, integers no double
+    holds, booleans, numbers given as text - with the odd kind at one position only, at a few, or throughout.  Every cleaned item is what the item cleaned
+    alone gives (value and type), the raw list is untouched, cleaning the cleaned list changes nothing; the same through a command file"""
+    import sys, types
+    from mpilot import params as P
+    from mpilot.program import Program
+    rng = ctx.rng
+    name = "mpverif_echo"
+    if name not in sys.modules:
+        m = types.ModuleType(name)
+        sys.modules[name] = m
+        exec(compile(ECHO_SRC, name, "exec"), m.__dict__)
+    echo = sys.modules[name]
+    program = make_program(None)
+    big = 2 ** 53 + 1
+    mixes = [
+        ("integers, one decimal", lambda i, n: 7.5 if i == 7 else i),
+        ("decimals, one integer", lambda i, n: 3 if i == n - 2 else i + 0.25),
+        ("integers and whole-valued decimals", lambda i, n: float(i) if i % 3 == 0 else i),
+        ("an integer beyond 2^53 next to decimals", lambda i, n: big if i == 0 else (0.5 if i == 1 else i % 5)),
+        ("integers beyond 2^53, one decimal last", lambda i, n: 0.5 if i == n - 1 else big + 2 * i),
+        ("integers beyond 2^64 among small ones", lambda i, n: 2 ** 64 + i if i % 97 == 5 else i),
+        ("booleans among numbers", lambda i, n: (i % 2 == 0) if i % 50 == 3 else (i if i % 2 else i / 4.0)),
+        ("numbers and numbers given as text", lambda i, n: [str(i), "%d.5" % i, i, i + 0.5, "%de1" % i][i % 5]),
+        ("all integers", lambda i, n: i - 40),
+        ("all decimals", lambda i, n: i / 8.0),
+        ("random kinds", None),
+    ]
+    kinds = [lambda r: r.randrange(-10 ** 6, 10 ** 6), lambda r: r.randrange(-99, 99) / 4.0, lambda r: float(r.randrange(-99, 99)), lambda r: 2 ** 53 + 1 + r.randrange(1000),
+             lambda r: str(r.randrange(1000)), lambda r: "%d.25" % r.randrange(100), lambda r: r.random() < 0.5]
+    cfgs = [("List(Number)", P.ListParameter(P.NumberParameter()), lambda raw: raw), ("List", P.ListParameter(), lambda raw: raw),
+            ("List(String)", P.ListParameter(P.StringParameter()), lambda raw: raw), ("List(Boolean)", P.ListParameter(P.BooleanParameter()), lambda raw: [x % 2 if isinstance(x, int) else ("true", "False", "1")[i % 3] for i, x in enumerate(raw)]),
+            ("List(List(Number))", P.ListParameter(P.ListParameter(P.NumberParameter())), lambda raw: [raw, raw[:3], []])]
+    lengths = [70, 300, 1500, 5000] + ([20000, 70000] if ctx.thorough else [])
+    for n in lengths:
+        for label, f in mixes:
+            base = [f(i, n) for i in range(n)] if f is not None else [rng.choice(kinds)(rng) for _ in range(n)]
+            for cname, param, shape in cfgs:
+                if cname != "List(Number)" and (label not in ("integers, one decimal", "random kinds", "numbers and numbers given as text") or n > 5000):
+                    continue
+                raw = shape(base)
+                before = snap(raw)
+                r1 = call_clean(param, raw, program)
+                desc = {"parameter": cname, "length": n, "mix": label, "raw_head": repr(raw)[:160]}
+                ctx.case("long-list %s %d %s" % (cname, n, label), sample=None)
+                ctx.count("long_list_cases")
+                if r1[0] != "ok":
+                    ctx.fail("%s.clean(<list of %d items: %s>) gives %r" % (cname, n, label, r1[:3]), desc)
+                    continue
+                if before != snap(raw):
+                    ctx.fail("%s.clean altered its raw argument (a list of %d items: %s)" % (cname, n, label), desc)
+                got = r1[1]
+                if not isinstance(got, list) or len(got) != len(raw):
+                    ctx.fail("%s.clean(<list of %d items>) returned %s of %s items" % (cname, n, type(got).__name__, len(got) if hasattr(got, "__len__") else "?"), desc)
+                    continue
+                pairs = list(zip(raw, got)) if cname != "List(List(Number))" else list(zip(raw[0], got[0]))
+                item_type = param.value_type if cname != "List(List(Number))" else param.value_type.value_type
+                for k, (item, got_item) in enumerate(pairs):
+                    alone = call_clean(item_type, item, program)
+                    if not same_clean(("ok", got_item), alone):
+                        ctx.fail("%s.clean(<list of %d items: %s>): item %d, %r, came back as %r (%s); cleaned alone it gives %r (%s)" % (
+                            cname, n, label, k, item, got_item, type(got_item).__name__, alone[1] if alone[0] == "ok" else alone[:2], type(alone[1]).__name__), desc)
+                        break
+                r3 = call_clean(param, got, program)
+                if r3[0] != "ok" or snap(r3[1]) != snap(got):
+                    ctx.fail("%s: cleaning the cleaned list of %d items (%s) changes it" % (cname, n, label), desc)
+    # the same through a command file and a user command: every value reaches the body as the item cleaned alone
+    num = P.NumberParameter()
+    for n in (40, 1500, 4000):
+        for label, f in mixes[:4]:
+            base = [f(i, n) for i in range(n)]
+            text = ", ".join('"%s"' % x if isinstance(x, str) else repr(x) for x in base)
+            src = "E = Echo(\n    LN = [[%s],\n          [1, 2.5]]\n)\n" % text
+            echo.GOT.clear()
+            try:
+                p = Program.from_source(src, libraries=(name,))
+                p.run()
+                got, outcome = echo.GOT["E"].get("LN"), "ok"
+            except Exception as e:
+                got, outcome = None, progrun.classify(e)
+            ctx.case("long-list-file %d %s" % (n, label), sample=None)
+            ctx.count("long_list_file_cases")
+            desc = {"source": src[:300] + " ...", "length": n, "mix": label}
+            want = [num.clean(x) for x in base]
+            if outcome != "ok" or not isinstance(got, list) or len(got) != 2 or not isinstance(got[0], list):
+                ctx.fail("a command file with a list of %d numbers (%s): %s, handed %r" % (n, label, outcome, repr(got)[:80]), desc)
+            elif [(type(x).__name__, repr(x)) for x in got[0]] != [(type(x).__name__, repr(x)) for x in want]:
+                k = next(i for i, (x, y) in enumerate(zip(got[0], want)) if (type(x), repr(x)) != (type(y), repr(y))) if len(got[0]) == len(want) else -1
+                ctx.fail("a command file with a list of %d numbers (%s): item %d, written %r, reaches the command as %r; written in a short list it arrives as %r" % (
+                    n, label, k, base[k], got[0][k] if k >= 0 else None, want[k]), desc)
+
+
 def documented_datatypes(ctx):
     """data-type names are mapped to the documented types, per library, whatever other libraries the process has loaded"""
     import numpy
@@ -419,6 +514,7 @@ def run(ctx):
     documented_datatypes(ctx)
     program_purity(ctx)
     from_file_values(ctx)
+    long_lists(ctx)
     answers = model.ask(lines)
     for line, (desc, cname, r1, r3, param), ans in zip(lines, metas, answers):
         impl = "ok" if r1[0] == "ok" else r1[0] + " " + r1[1]
